@@ -31,7 +31,7 @@ Cfgs == <<
    \* 5: handler constraints one-of / differ
    C0(<<A0(97, <<>>, "int"), A0(98, <<>>, "int"), A0(110, K_num, "flag")>>, <<H("oneOf", <<1, 3>>), H("differ", <<1, 2>>)>>, TRUE),
    \* 6: fixed-size array, clear-before-assign vector, cardinality exact 2
-   C0(<<A0(97, K_al, "arr3"), [A0(118, K_val, "vecint") EXCEPT !.clear = TRUE, !.init = <<1, 2>>, !.card = [t |-> "exact", a |-> 2, b |-> 0]], A0(98, <<>>, "flag")>>, <<>>, TRUE),
+   C0(<<[A0(97, K_al, "arr3") EXCEPT !.sort = TRUE], [A0(118, K_val, "vecint") EXCEPT !.clear = TRUE, !.init = <<1, 2>>, !.card = [t |-> "exact", a |-> 2, b |-> 0]], A0(98, <<>>, "flag")>>, <<>>, TRUE),
    \* 7: string with formats and length checks, optional<int>, any-of
    C0(<<[A0(118, K_val, "str") EXCEPT !.formats = <<"upper">>, !.checks = <<Ck("maxlen", 2, 0)>>], A0(110, K_num, "optint"), A0(97, K_al, "flag")>>, <<H("anyOf", <<2, 3>>)>>, TRUE),
    \* 8: all-of + cardinality max 2 on a scalar
